@@ -11,7 +11,14 @@ pub struct ShrinkStats {
     pub to: usize,
 }
 
-fn fails(plan: &RunPlan, seed: u64, actions: &[Action], target: &str, tag: &str) -> bool {
+fn fails(
+    plan: &RunPlan,
+    seed: u64,
+    actions: &[Action],
+    target: &str,
+    tag: &str,
+    sweep: (Option<u32>, u32),
+) -> bool {
     let r = replay_actions(
         plan,
         seed,
@@ -20,6 +27,8 @@ fn fails(plan: &RunPlan, seed: u64, actions: &[Action], target: &str, tag: &str)
             verbose: false,
             tag: tag.to_string(),
             force_journal: None,
+            sweep_one_in: sweep.0,
+            sweep_interior: sweep.1,
         },
         Some(target),
     );
@@ -36,6 +45,7 @@ pub fn shrink(
     target: &str,
     tag: &str,
     max_replays: u32,
+    sweep: (Option<u32>, u32),
 ) -> (Vec<Action>, ShrinkStats) {
     let mut stats = ShrinkStats {
         replays: 0,
@@ -44,7 +54,7 @@ pub fn shrink(
     };
     let mut cur: Vec<Action> = actions.to_vec();
     stats.replays += 1;
-    if !fails(plan, seed, &cur, target, tag) {
+    if !fails(plan, seed, &cur, target, tag, sweep) {
         // not reproducible from the action list: report unminimised
         return (cur, stats);
     }
@@ -54,7 +64,7 @@ pub fn shrink(
         while lo < hi && stats.replays < max_replays {
             let mid = (lo + hi) / 2;
             stats.replays += 1;
-            if fails(plan, seed, &cur[..mid], target, tag) {
+            if fails(plan, seed, &cur[..mid], target, tag, sweep) {
                 hi = mid;
             } else {
                 lo = mid + 1;
@@ -62,7 +72,7 @@ pub fn shrink(
         }
         if hi < cur.len() {
             stats.replays += 1;
-            if fails(plan, seed, &cur[..hi], target, tag) {
+            if fails(plan, seed, &cur[..hi], target, tag, sweep) {
                 cur.truncate(hi);
             }
         }
@@ -79,7 +89,7 @@ pub fn shrink(
             cand.extend_from_slice(&cur[..start]);
             cand.extend_from_slice(&cur[end..]);
             stats.replays += 1;
-            if !cand.is_empty() && fails(plan, seed, &cand, target, tag) {
+            if !cand.is_empty() && fails(plan, seed, &cand, target, tag, sweep) {
                 cur = cand;
                 reduced = true;
                 // keep `start`: the next chunk moved into this position
